@@ -135,13 +135,14 @@ class Ctx:
             err = np.where(same_inf, 0.0, err)
             bad = ~(err <= tol)
         if np.any(bad):
-            idx = np.unravel_index(int(np.argmax(np.where(np.isnan(err), np.inf, err))), err.shape) if err.shape else ()
-            t = np.asarray(tol, dtype=float)
-            tt = t if t.shape == () else np.broadcast_to(t, err.shape)[idx]
+            t = np.broadcast_to(np.asarray(tol, dtype=float), err.shape)
+            with np.errstate(invalid="ignore", divide="ignore"):
+                ratio = np.where(bad, np.where(np.isnan(err), np.inf, err / np.maximum(t, 1e-320)), -1.0)
+            idx = np.unravel_index(int(np.argmax(ratio)), err.shape) if err.shape else ()
             self.fail(
                 label,
-                f"{what} worst |got-ref|={float(np.asarray(err)[idx]):.3e} tol={float(tt):.3e} "
-                f"got={float(np.asarray(got)[idx])!r} ref={float(np.asarray(ref)[idx])!r} at {idx} ({int(np.sum(bad))} bad)",
+                f"{what} worst |got-ref|={float(np.asarray(err)[idx]):.3e} tol={float(t[idx]):.3e} "
+                f"got={float(np.asarray(got)[idx])!r} ref={float(np.asarray(ref)[idx])!r} at {tuple(int(i) for i in idx)} ({int(np.sum(bad))} bad of {err.size})",
             )
             return False
         return True
